@@ -221,6 +221,9 @@ int glob_files(fstree_t *fs, const char *filename, size_t line_num,
 	}
 
 	/* do the scan */
+	if (basepath == NULL)
+		basepath = ".";
+
 	if (sep->count == 0) {
 		dir = dir_tree_iterator_create(basepath, &cfg);
 	} else {
